@@ -135,6 +135,8 @@ class MasterWorld:
         self.cellmonitors = cfg.get('cellmonitors', [])
         self.down_since_L = {}
         self.marked = set()
+        self.truth = {}         # server -> 'up' | 'down' | 'frozen' (harness truth)
+        self.bl_idx = 0
         self.late = False
         self.undelivered = []   # [(path, children)] captured, not yet processed
         self.put_log = []
@@ -231,15 +233,18 @@ class MasterWorld:
         del cellworld._PUT_LOG[:]
         pre = cellworld.snapshot_cell(m.cell) if self.cellmonitors else None
         m.reschedule()
-        m.check_placement_integrity()
         self.last_results = list(_SCHEDULE_RESULTS)
         self.stats['cycles'] += 1
-        self.after_cycle('reschedule')
         if self.cellmonitors:
+            # model-level properties are stated "after every scheduling
+            # cycle": checked before the master's own integrity check can
+            # abort the loop
             self.put_log = list(cellworld._PUT_LOG)
             queues = [list(q) for q in cellworld._QUEUES]
             for mon in self.cellmonitors:
                 mon(self, pre, self.last_results[-1], queues)
+        m.check_placement_integrity()
+        self.after_cycle('reschedule')
 
     def after_cycle(self, kind):
         for mon in self.monitors:
@@ -327,6 +332,7 @@ class MasterWorld:
             node = self.tree.client()
             zkutils.put(node, z.path.server_presence(name), {},
                         ephemeral=True)
+            self.truth.pop(name, None)
             self.deliver(z.EVENTS, z.SERVER_PRESENCE)
         elif kind == 'srv':
             # admin changes the record of a server (capacity / partition /
@@ -378,11 +384,23 @@ class MasterWorld:
                 if state == 'frozen':
                     self.marked.update((name, a) for a in apps)
             masterapi.update_server_state(admin, name, state, apps)
+            if state == 'frozen':
+                self.truth[name] = 'frozen'
+            else:
+                self.truth.pop(name, None)
             self.deliver(z.EVENTS)
         elif kind == 'bl':
+            self.bl_idx = body[1]
             zkutils.put(admin, z.BLACKEDOUT_APPS, cfg['blacklists'][body[1]])
             masterapi.create_event(admin, 0, 'apps_blacklist', None)
             self.deliver(z.EVENTS)
+        elif kind == 'blk':
+            node = z.path.blackedout_server(body[1])
+            if body[2]:
+                zkutils.ensure_exists(admin, node)
+            else:
+                zkutils.ensure_deleted(admin, node)
+            self.deliver(z.BLACKEDOUT_SERVERS)
         elif kind == 'cell-':
             masterapi.cell_remove_bucket(admin, body[1])
             self.deliver(z.EVENTS)
@@ -413,14 +431,42 @@ class MasterWorld:
             self.cycle()
 
     def _track_states(self):
-        for name, srv in self.master.servers.items():
-            if srv.state is State.down:
+        """Harness-side truth about server states, independent of the model:
+        a server is down from the moment its presence node disappears, frozen
+        while a freeze event stands and presence exists; otherwise the
+        model's own state (up, or down by an explicit state event) is used."""
+        present = set(self.children(z.SERVER_PRESENCE))
+        known = set(self.children(z.SERVERS))
+        for name in known:
+            if name not in present:
+                self.truth[name] = 'down'
+            elif self.truth.get(name) == 'down':
+                self.truth.pop(name)          # came back: up
+        for name in list(self.truth):
+            if name not in known:
+                del self.truth[name]
+        for name in known:
+            srv = self.master.servers.get(name)
+            down = self.truth.get(name) == 'down' or (
+                name not in self.truth and srv is not None and
+                srv.state is State.down)
+            if down:
                 self.down_since_L.setdefault(name, CLOCK.L)
             else:
                 self.down_since_L.pop(name, None)
         for name in list(self.down_since_L):
-            if name not in self.master.servers:
+            if name not in known:
                 del self.down_since_L[name]
+
+    def truth_state(self, name, model_state):
+        return {'down': State.down,
+                'frozen': State.frozen}.get(self.truth.get(name), model_state)
+
+    def truth_blacklisted(self, appname, model_flag):
+        import fnmatch
+        base = appname.split('#')[0]
+        return any(fnmatch.fnmatch(base, pat)
+                   for pat in self.cfg.get('blacklists', [[]])[self.bl_idx])
 
     # -- crash injection ------------------------------------------------------
     def count_writes(self, step, event=None):
@@ -546,6 +592,9 @@ class MasterWorld:
             elif kind == 'srv+':
                 if e[1] in known:
                     continue
+            elif kind == 'blk':
+                if (e[1] in self.children(z.BLACKEDOUT_SERVERS)) == bool(e[2]):
+                    continue
             elif kind == 'cell-':
                 if e[1] not in self.children(z.CELL):
                     continue
@@ -566,6 +615,8 @@ class MasterWorld:
             elif kind == 'state':
                 srv = self.master.servers.get(e[1])
                 if srv is None or srv.state.value == e[2]:
+                    continue
+                if e[1] not in present:
                     continue
                 if e[3] >= len(srv.apps):
                     continue
@@ -639,6 +690,8 @@ class MasterWorld:
                          for g in self.children(z.IDENTITY_GROUPS))),
             tuple(sorted(self.children(z.EVENTS))),
             tuple(self.children(z.CELL)),
+            tuple(sorted(self.children(z.BLACKEDOUT_SERVERS))),
+            tuple(sorted(self.truth.items())), self.bl_idx,
             tuple(sorted(ren(n) for n in self.children(z.FINISHED))),
             (tree.find(z.BLACKEDOUT_APPS).data
              if tree.find(z.BLACKEDOUT_APPS) else None),
